@@ -56,3 +56,13 @@ func init() {
 		Stages: []Stage{{Name: "dispatch", Pkg: "./mon/c01", Procs: 1, Batches: [2]int{8, 16}, TimeoutS: [2]int{600, 3000}}},
 	}
 }
+
+func init() {
+	properties["C02"] = Property{
+		Level: "exploration",
+		Rule:  "one case = one operation of a generated history (AddFact/RemFact/GetFact/SearchFacts over 5 ids, omitted ids and property facts; facts with numbers, booleans, over-long strings, keys ending in '!', a `rule` key) judged on both state implementations against the model; search patterns are derived from stored and formerly stored facts; non-trivial = the expected search result is non-empty, or the id was written before; distinct by canonical JSON of the history prefix",
+		Floor: [2]int{500, 5000},
+		Assumptions: []string{"lib/ref.Match + lib/ref.Loc are the specification; facts hold no variable-looking strings (C13) and no ttl/expires (C07)"},
+		Stages: []Stage{{Name: "search", Pkg: "./mon/c02", Procs: 1, Batches: [2]int{8, 16}, TimeoutS: [2]int{600, 3000}}},
+	}
+}
